@@ -78,6 +78,9 @@ theorem pList_mem : (pathList, pSvc, pList) ∈ fileRpcs pA := by decide
 theorem pImp_mem : (0, pImp) ∈ indexed pA.imports := by decide
 
 theorem pw_clean : cleanB {} Rule.all pw = true := by decide
+
+/-- the methods of the witness workspace have pairwise distinct fully-qualified names -/
+theorem pw_full_names : FullNamesDistinct pw := by decide
 theorem all_nodup : Rule.all.Nodup := by decide
 theorem pB_mem : pB ∈ nonImport pw := .tail _ (.head _)
 
